@@ -188,6 +188,22 @@ class Interp:
                 raise AnalysisError(f"guard language: cannot index {text!r}: {exc}") from exc
         if isinstance(node, ast.Call):
             return self.call(node)
+        if isinstance(node, (ast.SetComp, ast.DictComp)) and len(node.generators) == 1:
+            gen = node.generators[0]
+            seq = self.ev(gen.iter)
+            if isinstance(seq, Unknown):
+                return Unknown("comprehension over " + seq.why)
+            out = set() if isinstance(node, ast.SetComp) else {}
+            saved = dict(self.env)
+            for item in seq:
+                self.store(gen.target, item, node)
+                if all(self.truth(self.ev(c), c) for c in gen.ifs):
+                    if isinstance(node, ast.SetComp):
+                        out.add(self.ev(node.elt))
+                    else:
+                        out[self.ev(node.key)] = self.ev(node.value)
+            self.env = saved
+            return out
         if isinstance(node, (ast.ListComp, ast.GeneratorExp)) and len(node.generators) == 1:
             gen = node.generators[0]
             seq = self.ev(gen.iter)
